@@ -8,7 +8,7 @@
    [apply_ev_bac_ok]).  Without it removeRecoveryBackupFiles would emit ERemove FMain / ERemove FLock.
    No axioms; auxiliary names are prefixed rc_ (rf_ for the refutation scenario). *)
 From Coq Require Import ZArith Lia ZifyN ZifyNat ZifyBool Permutation Sorted.
-From Pogreb Require Import Base BaseLemmas Crc Bytes Record RecordProofs Flat Spec DB DBInv DBLemmas.
+From Pogreb Require Import Base BaseLemmas Crc Bytes Record RecordProofs Flat Spec DB DBInv DBLemmas DBMeta.
 Ltac Zify.zify_post_hook ::= Z.div_mod_to_equations.
 
 Local Notation disk := (@DB.disk flat).
@@ -1244,6 +1244,61 @@ Proof.
   - rewrite H, map_map. apply map_ext. intros g. reflexivity.
 Qed.
 
+(* ---- the DeleteRecords counter (MetaOK) ---- *)
+Definition rc_dsig (g : mseg) : N * N := (g_id g, sm_delrec (g_meta g)).
+Definition rc_dstep (b : bool) (c : N) : N := if b then u32 (c + 1) else c.
+Definition rc_csum (c : N) (es : list (N * rec)) : N := fold_left (fun c e => rc_dstep (rdel (snd e)) c) es c.
+Definition rc_hdel (id : N) (es : list (N * rec)) (t : N * N) : N * N :=
+  if fst t =? id then (fst t, rc_csum (snd t) es) else t.
+
+Lemma rc_dsig_upd_mseg id F (c' : N -> N) l :
+  (forall g, rc_dsig (F g) = (g_id g, c' (sm_delrec (g_meta g)))) ->
+  map rc_dsig (upd_mseg id F l) = map (fun t => if fst t =? id then (fst t, c' (snd t)) else t) (map rc_dsig l).
+Proof.
+  intros HF. unfold upd_mseg. rewrite !map_map. apply map_ext. intros g. cbn [rc_dsig fst snd].
+  destruct (g_id g =? id); [apply HF|reflexivity].
+Qed.
+
+Lemma rc_dsig_upd_mseg_same id F l : (forall g, rc_dsig (F g) = rc_dsig g) -> map rc_dsig (upd_mseg id F l) = map rc_dsig l.
+Proof.
+  intros HF. unfold upd_mseg. rewrite map_map. apply map_ext. intros g. destruct (g_id g =? id); [apply HF|reflexivity].
+Qed.
+
+Lemma rc_dsig_track_del sl (m : mem) : map rc_dsig (m_segs (track_del sl m)) = map rc_dsig (m_segs m).
+Proof. unfold track_del. cbn [set_msegs m_segs]. apply rc_dsig_upd_mseg_same. intros g. reflexivity. Qed.
+
+Lemma rc_dsig_map_In (h : N * N -> N * N) l l' g' :
+  map rc_dsig l' = map h (map rc_dsig l) -> In g' l' -> exists g, In g l /\ rc_dsig g' = h (rc_dsig g).
+Proof.
+  intros E Hg'. apply (in_map rc_dsig) in Hg'. rewrite E, map_map in Hg'. apply in_map_iff in Hg'.
+  destruct Hg' as (g & Eg & Hg). exists g. split; [exact Hg|symmetry; exact Eg].
+Qed.
+
+Lemma rc_csum_count es : forall c,
+  c + nlen (filter (fun e : N * rec => rdel (snd e)) es) < 4294967296 ->
+  rc_csum c es = c + nlen (filter (fun e : N * rec => rdel (snd e)) es).
+Proof.
+  induction es as [|e es IH]; intros c H.
+  - cbn [rc_csum fold_left filter nlen]. lia.
+  - unfold rc_csum. cbn [fold_left filter] in *. fold (rc_csum (rc_dstep (rdel (snd e)) c) es).
+    unfold rc_dstep. destruct (rdel (snd e)).
+    + rewrite nlen_cons in *. rewrite u32_small by lia. rewrite IH by lia. lia.
+    + apply IH. exact H.
+Qed.
+
+Lemma rc_ndel_entries f :
+  nlen (filter (fun e : N * rec => rdel (snd e)) (seg_entries f)) = nlen (filter rdel (f_recs f)).
+Proof.
+  unfold seg_entries. generalize header_size as o. induction (f_recs f) as [|r rs IH]; intros o; [reflexivity|].
+  rewrite with_offsets_cons. cbn [filter snd]. destruct (rdel r); [rewrite !nlen_cons, IH; reflexivity|apply IH].
+Qed.
+
+Lemma rc_ndel_bound rs : 10 * nlen (filter rdel rs) <= recs_len rs.
+Proof.
+  induction rs as [|r rs IH]; [cbn [filter nlen]; rewrite recs_len_nil; lia|].
+  rewrite recs_len_cons. cbn [filter]. pose proof (rsize_ge r). destruct (rdel r); [rewrite nlen_cons|]; lia.
+Qed.
+
 Section RecSeg.
 Variable P : params.
 
@@ -1257,7 +1312,7 @@ Lemma rc_recover_segment_spec id seq (s : st) (m : mem) f :
     s_mem s1 = s_mem s /\
     m_idx m1 = m_idx m /\ m_seed m1 = m_seed m /\ m_cur m1 = m_cur m /\ m_cur_removed m1 = m_cur_removed m /\
     m_maxseq m1 = m_maxseq m /\ map rc_msig0 (m_segs m1) = map rc_msig0 (m_segs m) /\
-    rc_magree (m_segs m1) (s_disk s1).
+    rc_magree (m_segs m1) (s_disk s1) /\ map rc_dsig (m_segs m1) = map rc_dsig (m_segs m).
 Proof.
   intros Hnd Hf Hseq Hh Hst Hag.
   destruct (rc_tail_stuck_parse _ Hst) as (why & Ep & Hend).
@@ -1294,15 +1349,18 @@ Proof.
   assert (Hsig : map rc_msig0 (upd_mseg id (fun g => set_gsize g (header_size + recs_len (f_recs f) + 0)) (m_segs m)) =
                  map rc_msig0 (m_segs m)).
   { unfold upd_mseg. rewrite map_map. apply map_ext. intros g. destruct (g_id g =? id); reflexivity. }
+  assert (Hdsig : map rc_dsig (upd_mseg id (fun g => set_gsize g (header_size + recs_len (f_recs f) + 0)) (m_segs m)) =
+                  map rc_dsig (m_segs m)).
+  { apply rc_dsig_upd_mseg_same. intros g. reflexivity. }
   destruct why.
   - exists s, m. split; [reflexivity|]. split; [apply Hsend; reflexivity|]. split; [apply same_rest_refl|].
-    repeat (split; [reflexivity|]). apply Hag_end; [reflexivity|]. apply Hsend. reflexivity.
+    repeat (split; [reflexivity|]). split; [|reflexivity]. apply Hag_end; [reflexivity|]. apply Hsend. reflexivity.
   - eexists. eexists. split; [reflexivity|]. split; [exact Htr|]. split; [repeat split|].
-    repeat (split; [reflexivity|]). split; [exact Hsig|]. apply Hag_tr. exact Htr.
+    repeat (split; [reflexivity|]). split; [exact Hsig|]. split; [apply Hag_tr; exact Htr|exact Hdsig].
   - eexists. eexists. split; [reflexivity|]. split; [exact Htr|]. split; [repeat split|].
-    repeat (split; [reflexivity|]). split; [exact Hsig|]. apply Hag_tr. exact Htr.
+    repeat (split; [reflexivity|]). split; [exact Hsig|]. split; [apply Hag_tr; exact Htr|exact Hdsig].
   - eexists. eexists. split; [reflexivity|]. split; [exact Htr|]. split; [repeat split|].
-    repeat (split; [reflexivity|]). split; [exact Hsig|]. apply Hag_tr. exact Htr.
+    repeat (split; [reflexivity|]). split; [exact Hsig|]. split; [apply Hag_tr; exact Htr|exact Hdsig].
 Qed.
 
 End RecSeg.
@@ -1409,6 +1467,44 @@ Proof.
     apply rc_replay_idx_ext. intros i off. apply rc_rsim_rec_of. exact Hsim.
 Qed.
 
+Lemma rc_replay_rec_dsig (d : disk) id off r (m : mem) :
+  map rc_dsig (m_segs (replay_rec flat_ops P d id off r m)) = map (rc_hdel id [(off, r)]) (map rc_dsig (m_segs m)).
+Proof.
+  unfold replay_rec. cbn [ix_del ix_put flat_ops]. destruct (rdel r) eqn:Hdel.
+  - destruct (fl_del (m_idx m) (p_hash P (m_seed m) (rk r)) (matchf d (rk r))) as [i1 old].
+    assert (E : forall l, map rc_dsig (upd_mseg id
+        (fun g => set_gmeta g
+          {| sm_full := sm_full (g_meta g); sm_put := sm_put (g_meta g);
+             sm_delrec := u32 (sm_delrec (g_meta g) + 1); sm_delkeys := sm_delkeys (g_meta g);
+             sm_delbytes := u32 (sm_delbytes (g_meta g) + u32 (rsize r)) |}) l) =
+        map (rc_hdel id [(off, r)]) (map rc_dsig l)).
+    { intros l. rewrite (rc_dsig_upd_mseg id _ (fun c => u32 (c + 1))) by (intros g; reflexivity).
+      apply map_ext. intros t. unfold rc_hdel, rc_csum, rc_dstep. cbn [fold_left snd]. rewrite Hdel. reflexivity. }
+    destruct old as [o|]; cbn [set_msegs set_idx m_segs]; rewrite E; [rewrite rc_dsig_track_del|]; reflexivity.
+  - match goal with |- context [fl_put ?a ?b ?c ?e] => destruct (fl_put a b c e) as [i1 old] end.
+    assert (E : forall l, map rc_dsig (upd_mseg id
+        (fun g => set_gmeta g
+          {| sm_full := sm_full (g_meta g); sm_put := u32 (sm_put (g_meta g) + 1);
+             sm_delrec := sm_delrec (g_meta g); sm_delkeys := sm_delkeys (g_meta g);
+             sm_delbytes := sm_delbytes (g_meta g) |}) l) =
+        map (rc_hdel id [(off, r)]) (map rc_dsig l)).
+    { intros l. rewrite (rc_dsig_upd_mseg id _ (fun c => c)) by (intros g; reflexivity).
+      apply map_ext. intros t. unfold rc_hdel, rc_csum, rc_dstep. cbn [fold_left snd]. rewrite Hdel. reflexivity. }
+    destruct old as [o|]; cbn [set_msegs set_idx m_segs]; rewrite E; [rewrite rc_dsig_track_del|]; reflexivity.
+Qed.
+
+Lemma rc_replay_seg_dsig (d1 : disk) id (es : list (N * rec)) : forall m : mem,
+  map rc_dsig (m_segs (fold_left (fun m e => replay_rec flat_ops P d1 id (fst e) (snd e) m) es m)) =
+  map (rc_hdel id es) (map rc_dsig (m_segs m)).
+Proof.
+  induction es as [|e es IH]; intros m.
+  - cbn [fold_left]. rewrite <- (map_id (map rc_dsig (m_segs m))) at 1. apply map_ext. intros t.
+    unfold rc_hdel, rc_csum. cbn [fold_left]. destruct (fst t =? id); [destruct t|]; reflexivity.
+  - cbn [fold_left]. rewrite IH, rc_replay_rec_dsig, map_map. apply map_ext. intros t.
+    unfold rc_hdel. destruct (fst t =? id) eqn:E; cbn [fst snd]; rewrite E; [|reflexivity].
+    destruct e as [off r]. reflexivity.
+Qed.
+
 Definition rc_rstep (sm : st * mem) (p : N * N) : st * mem :=
   recover_segment flat_ops P (fst p) (snd p) (fst sm) (snd sm).
 
@@ -1436,13 +1532,21 @@ Lemma rc_recover_loop (d4 : disk) seed (D : list dseg) : DiskOK d4 -> (forall f0
     rc_IdxInv P d4 seed (lpre ++ concat (map dseg_entries D)) (m_idx m') /\ m_seed m' = seed /\
     m_cur m' = m_cur m /\ m_cur_removed m' = m_cur_removed m /\ m_maxseq m' = m_maxseq m /\
     map rc_msig0 (m_segs m') = map rc_msig0 (m_segs m) /\
-    m_idx m' = rc_ridx P d4 seed (concat (map dseg_entries D)) (m_idx m).
+    m_idx m' = rc_ridx P d4 seed (concat (map dseg_entries D)) (m_idx m) /\
+    (* the DeleteRecords counters: rebuilt for the segments replayed, untouched otherwise *)
+    (NoDup (map f_id D) ->
+     (forall g f0, In g (m_segs m) -> In f0 D -> g_id g = f_id f0 -> sm_delrec (g_meta g) = 0) ->
+     forall g', In g' (m_segs m') ->
+       (exists f0, In f0 D /\ g_id g' = f_id f0 /\ sm_delrec (g_meta g') = nlen (filter rdel (f_recs f0))) \/
+       ((forall f0, In f0 D -> g_id g' <> f_id f0) /\
+        exists g, In g (m_segs m) /\ g_id g = g_id g' /\ sm_delrec (g_meta g) = sm_delrec (g_meta g'))).
 Proof.
   intros Hok. induction D as [|f0 D IH]; intros HD s m lpre Hsim Hpre Hag HI Hseed.
   - exists s, m. cbn [map fold_left concat]. rewrite app_nil_r.
     split; [reflexivity|]. split; [exact Hsim|]. split; [symmetry; apply map_id|].
     split; [apply same_rest_refl|]. split; [reflexivity|]. split; [exact Hag|]. split; [exact HI|].
-    repeat split; auto.
+    split; [exact Hseed|]. repeat (split; [reflexivity|]).
+    intros _ _ g' Hg'. right. split; [intros f0 []|]. exists g'. auto.
   - cbn [map fold_left]. unfold rc_rstep at 2. cbn [fst snd].
     assert (Hf0 : In f0 (d_segs d4)) by (apply HD; left; reflexivity).
     destruct Hok as (Hdok & Hnd4 & Hnq4).
@@ -1453,7 +1557,7 @@ Proof.
     pose proof (find_dseg_In _ _ _ Hf) as [HfIn _].
     pose proof (proj1 (Forall_forall _ _) Hpre f HfIn) as [Hh Hst].
     destruct (rc_recover_segment_spec P (f_id f0) (f_seq f0) s m f Hnd Hf Efs Hh Hst Hag)
-      as (s1 & m1 & Er & Ed & Erest & Emem & A1 & A2 & A3 & A4 & A5 & A6 & A7).
+      as (s1 & m1 & Er & Ed & Erest & Emem & A1 & A2 & A3 & A4 & A5 & A6 & A7 & A8).
     rewrite Er.
     assert (Hsim1 : rc_rsim (s_disk s) (s_disk s1)).
     { unfold rc_rsim. rewrite Ed, map_map. apply map_ext. intros x.
@@ -1474,14 +1578,41 @@ Proof.
       split; [apply B5; exact Hxh|]. destruct B6 as [-> | ->]; [apply rc_tail_stuck_nil|exact Hxt]. }
     assert (Hag1 : rc_magree (m_segs m2) (s_disk s1)) by (apply (rc_magree_msig (m_segs m1)); [symmetry; exact C2|exact A7]).
     destruct (IH (fun x Hx => HD x (or_intror Hx)) s1 m2 (lpre ++ dseg_entries f0) Hsim41 Hpre1 Hag1 C1 C6)
-      as (s' & m' & E' & R1 & R2 & R3 & R4 & R5 & R6 & R7 & R8 & R9 & R10 & R11 & R12).
+      as (s' & m' & E' & R1 & R2 & R3 & R4 & R5 & R6 & R7 & R8 & R9 & R10 & R11 & R12 & R13).
     exists s', m'. split; [exact E'|]. split; [exact R1|]. split.
     { rewrite R2, Ed, map_map. apply map_ext. intros x. reflexivity. }
     split; [eapply same_rest_trans; eassumption|]. split; [congruence|]. split; [exact R5|]. split.
     { cbn [map concat]. rewrite app_assoc. exact R6. }
     split; [exact R7|]. split; [congruence|]. split; [congruence|]. split; [congruence|].
     split; [rewrite R11, (rc_msig_msig0 _ _ C2); exact A6|].
-    cbn [map concat]. rewrite rc_ridx_app, R12, C7, A1. reflexivity.
+    split; [cbn [map concat]; rewrite rc_ridx_app, R12, C7, A1; reflexivity|].
+    (* counters *)
+    intros HndD Hzero g' Hg'. cbn [map] in HndD. inversion HndD as [|? ? Hf0D HndD']; subst.
+    assert (Edsig : map rc_dsig (m_segs m2) = map (rc_hdel (f_id f0) (seg_entries f0)) (map rc_dsig (m_segs m))).
+    { unfold m2. rewrite rc_replay_seg_dsig, A8. reflexivity. }
+    assert (Hfrom : forall g2, In g2 (m_segs m2) -> exists g, In g (m_segs m) /\ g_id g2 = g_id g /\
+              sm_delrec (g_meta g2) = if g_id g =? f_id f0 then rc_csum (sm_delrec (g_meta g)) (seg_entries f0)
+                                       else sm_delrec (g_meta g)).
+    { intros g2 Hg2. destruct (rc_dsig_map_In _ _ _ g2 Edsig Hg2) as (g & Hg & Eg). exists g. split; [exact Hg|].
+      unfold rc_hdel, rc_dsig in Eg. cbn [fst snd] in Eg. destruct (g_id g =? f_id f0); inversion Eg; auto. }
+    assert (Hcnt : rc_csum 0 (seg_entries f0) = nlen (filter rdel (f_recs f0))).
+    { pose proof (proj1 (Forall_forall _ _) Hdok f0 Hf0) as (_ & _ & _ & _ & Hlen).
+      pose proof (rc_ndel_bound (f_recs f0)) as Hb. rewrite <- (rc_ndel_entries f0) in *.
+      rewrite rc_csum_count; lia. }
+    assert (Hzero2 : forall g2 f, In g2 (m_segs m2) -> In f D -> g_id g2 = f_id f -> sm_delrec (g_meta g2) = 0).
+    { intros g2 f Hg2 Hf Eid. destruct (Hfrom g2 Hg2) as (g & Hg & E1 & E2).
+      destruct (N.eqb_spec (g_id g) (f_id f0)) as [E|Hne].
+      - exfalso. apply Hf0D. rewrite <- E, <- E1, Eid. apply in_map. exact Hf.
+      - rewrite E2. apply (Hzero g f Hg (or_intror Hf)). congruence. }
+    destruct (R13 HndD' Hzero2 g' Hg') as [(f & Hf & B1 & B2)|(Hno & g2 & Hg2 & B1 & B2)].
+    + left. exists f. split; [right; exact Hf|auto].
+    + destruct (Hfrom g2 Hg2) as (g & Hg & E1 & E2).
+      destruct (N.eqb_spec (g_id g) (f_id f0)) as [E|Hne].
+      * left. exists f0. split; [left; reflexivity|]. split; [congruence|].
+        rewrite <- B2, E2, (Hzero g f0 Hg (or_introl eq_refl) E). exact Hcnt.
+      * right. split.
+        -- intros f [<-|Hf]; [congruence|apply Hno; exact Hf].
+        -- exists g. split; [exact Hg|]. split; congruence.
 Qed.
 
 End Loop.
